@@ -2,7 +2,7 @@
 from ..engine import site_of
 from ..facts import op_place, op_local, op_const, AnchorError
 from ..callgraph import callee_is
-from ..mirutil import (success_edges, dominated_by_ok, result_return_sites, forward_taint, root_place,
+from ..mirutil import (feasible_reach, success_edges, dominated_by_ok, result_return_sites, forward_taint, root_place,
                        op_root, place_is_field, calls_on_field, aggregates, origin, defuse, calls_in, deep_root)
 from ..region import (pregate_region, write_summary, switch_edges_on_variant, dominated_by_edges)
 from .. import anchors as A
@@ -230,7 +230,7 @@ def r5_responder_stored_if_verified(cx):
             senders = _sending_functions(prog)
             bad = []
             for e in oc.err_edges:
-                for rb in b.cfg.reachable_from_edge(e, avoid_edges=oc.ok_edges):
+                for rb in feasible_reach(b, [b.cfg.succ[e[1]][e[2]]], avoid_edges=oc.ok_edges):
                     tt = b.blocks[rb]["term"]
                     if tt["k"] == "call":
                         if A.is_socket_send(tt) or any(d in senders for _k, d in prog.cg.resolve(b, tt)):
